@@ -137,6 +137,27 @@ theorem TXParamSetupReq_set_max_eirp (c b0 v : Nat) (hv : v < 256) :
     try simp only [s4]
     setter_eval
     try rw [hw]
+theorem leBytes_nat : ∀ (n v : Nat), Rt.leBytes n (v : Int) = ints (toLeBytes n v) := by
+  intro n
+  induction n with
+  | zero => intro v; rfl
+  | succ n ih =>
+    intro v
+    have h1 : ((v : Int) % 256) = ((v % 256 : Nat) : Int) := by omega
+    have h2 : ((v : Int) / 256) = ((v / 256 : Nat) : Int) := by omega
+    simp only [Rt.leBytes, toLeBytes, h1, h2, ih]
+    rfl
+
+/-- `set_seconds` writes the 32-bit value LEAST significant octet first (`to_le_bytes`), as the model says — the creator
+half of the known finding C19-devicetime-seconds (the parser's accessor reads the octets most significant first:
+`MacCmd.acc_DeviceTimeAns_seconds`, `C19.c19_devicetime_counterexample`) -/
+theorem DeviceTimeAns_set_seconds (c b0 b1 b2 b3 b4 v : Nat) (hv : v < 4294967296) :
+    (Gen.MacCmdCreatorFn.DeviceTimeAnsCreator.set_seconds ⟨ints [c, b0, b1, b2, b3, b4]⟩ v).map (resI (·.data))
+      = (toOpt (setDeviceTimeAns ⟨[c, b0, b1, b2, b3, b4], 0⟩ "set_seconds" (.n v))).map resUp := by
+  unfold Gen.MacCmdCreatorFn.DeviceTimeAnsCreator.set_seconds setDeviceTimeAns
+  rw [leBytes_nat]
+  simp [toOpt, resUp, resI, ints, Rt.copyFromSlice, copyInto, toLeBytes, okD, bind, Outcome.bind]
+
 theorem DeviceTimeAns_set_nano_seconds (c b0 b1 b2 b3 b4 v : Nat) (hv : v < 4294967296) :
     (Gen.MacCmdCreatorFn.DeviceTimeAnsCreator.set_nano_seconds ⟨ints [c, b0, b1, b2, b3, b4]⟩ v).map (resF (·.data))
       = (toOpt (setDeviceTimeAns ⟨[c, b0, b1, b2, b3, b4], 0⟩ "set_nano_seconds" (.n v))).map resUp := by
@@ -369,6 +390,14 @@ theorem tieA_creator_DeviceTimeAns_build (c b0 b1 b2 b3 b4 : Nat) :
     Gen.MacCmdCreatorFn.DeviceTimeAnsCreator.build ⟨ints [c, b0, b1, b2, b3, b4]⟩ = (toOpt (Creator.build eDeviceTimeAns ⟨[c, b0, b1, b2, b3, b4], 0⟩)).map ints :=
   TieA.Creators.DeviceTimeAns_build c b0 b1 b2 b3 b4
 
+theorem tieA_creator_DeviceTimeAns_set_seconds (c b0 b1 b2 b3 b4 v : Nat) (hv : v < 4294967296) :
+    (Gen.MacCmdCreatorFn.DeviceTimeAnsCreator.set_seconds ⟨ints [c, b0, b1, b2, b3, b4]⟩ v).map (resI (·.data))
+      = (toOpt (setDeviceTimeAns ⟨[c, b0, b1, b2, b3, b4], 0⟩ "set_seconds" (.n v))).map resUp :=
+  TieA.Creators.DeviceTimeAns_set_seconds c b0 b1 b2 b3 b4 v hv
+
+/-- the known finding, on the REGENERATED creator: 0x01020304 seconds are written as 04 03 02 01 (little-endian) -/
+example : (Gen.MacCmdCreatorFn.DeviceTimeAnsCreator.set_seconds ⟨[13, 0, 0, 0, 0, 0]⟩ 0x01020304).map (·.data) = some [13, 4, 3, 2, 1, 0] := by decide
+
 /-! non-vacuity: concrete calls through the regenerated code (LinkADRReq: data rate 5 over power 3 kept; 16 refused;
 DeviceTimeAns: 500 ms = 128/256 s; the fresh creator; `build` of a full creator) -/
 example : (Gen.MacCmdCreatorFn.LinkADRReqCreator.set_data_rate ⟨[3, 0x03, 0, 0, 0]⟩ 5).map (resF (·.data)) = some (true, [3, 0x53, 0, 0, 0]) := by decide
@@ -388,6 +417,7 @@ example : (Gen.MacCmdCreatorFn.NewChannelReqCreator.new).bind (·.build) = some 
 #print axioms tieA_creator_TXParamSetupReq_set_downlink_dwell_time
 #print axioms tieA_creator_TXParamSetupReq_set_uplink_dwell_time
 #print axioms tieA_creator_TXParamSetupReq_set_max_eirp
+#print axioms tieA_creator_DeviceTimeAns_set_seconds
 #print axioms tieA_creator_DeviceTimeAns_set_nano_seconds
 #print axioms tieA_creator_LinkADRReq_new
 #print axioms tieA_creator_LinkADRReq_build
